@@ -786,7 +786,11 @@ func TestVerifIRC(t *testing.T) {
 	for g := 0; g < n; g++ {
 		rng := rand.New(rand.NewSource(seed*1000003 + int64(g)))
 		h++
-		vRunHistory(t, h, vGenHistory(rng, length), k, snapEvery, tmp, w)
+		wild := 0
+		if g%4 == 3 { // every fourth history is mostly fuzz outside the alphabet (C06, state invariants)
+			wild = 60
+		}
+		vRunHistory(t, h, vGenHistory(rng, length, wild), k, snapEvery, tmp, w)
 	}
 	json.NewEncoder(w).Encode(&vRecord{K: "end", H: h, Post: map[string]interface{}{}, Out: []vReply{}, Lookup: [][]interface{}{}})
 }
